@@ -1,6 +1,6 @@
 PID = "C19"
 WORKER = "w_c19"
-HEADER = "From Coq Require Import List ZArith QArith Qcanon Arith.\nFrom Dimod Require Import Base.Util Model.Poly Model.Samples Model.SSet Model.Store Model.Heap Model.ChkC19.\nImport ListNotations."
+HEADER = "From Coq Require Import List ZArith QArith Qcanon Arith.\nFrom Dimod Require Import Base.Util Model.Poly Model.Samples Model.SSet Model.Alias Model.Store Model.Heap Model.ChkC19.\nImport ListNotations."
 CHECK_FN = "check"
 N_QUICK = 1600
 N_THOROUGH = 40000
@@ -16,8 +16,12 @@ RULE = ("histories with up to 5 live handles starting from a random BQM (float64
         "through any handle incl. views; after every step every live handle is snapshotted bit for bit (coefficients in iteration order, "
         "variables, vartypes, bounds, record.tobytes(), labels, info), snapshots interned; expected results come from the same call on a "
         "detached clone; the store model in Coq decides what every handle must show; each snapshot also calls energies() on the object "
-        "and compares with its own coefficients (per-instance cached forwarding methods); non-trivial = at least 2 handles and 3 dumps")
-TRUSTED = ["model: coq/theories/Model/{Store,Heap,CopyApi,ChkC19}.v; translators/copy_api.py (fail-closed) -> Gen/Gen_Copy.v (BQM, QM, CQM, SampleSet, DQM, BinaryPolynomial, Variables, VartypeView); rows for DQM / BinaryPolynomial are listed but not yet driven by the worker",
+        "and compares with its own coefficients (per-instance cached forwarding methods); also BinaryPolynomial (copy, deepcopy, pickle, relabel_variables(inplace=False), to_spin/to_binary(copy=True), BinaryPolynomial(p); edits p[t]=, del p[t], scale, relabel in place) "
+        "and DiscreteQuadraticModel (copy, relabel_variables / relabel_variables_as_integers(inplace=False), vector round trip; edits set_linear_case, set_quadratic_case, add_variable, relabels in place) as opaque interned states; "
+        "7% of the cases are sample-set ALIAS histories (kind ssalias, shared with C14: the future's result object, from_future handles and everything relabel_variables / change_vartype return, "
+        "before and after the result exists; every resolved object dumped with its record-sharing class after every event; Model/Alias.v replay + the copy-independence oracle); "
+        "non-trivial = at least 2 handles and 3 dumps")
+TRUSTED = ["model: coq/theories/Model/{Store,Heap,CopyApi,ChkC19}.v; translators/copy_api.py (fail-closed) -> Gen/Gen_Copy.v (BQM, QM, CQM, SampleSet, DQM, BinaryPolynomial, Variables, VartypeView); DQM / BinaryPolynomial are driven by the worker as opaque interned states (OOpaque: results and edits come from detached clones, no function in Heap.v)", "model: coq/theories/Model/Alias.v for future-backed sample sets (see C14)",
            "snapshot functions of harness/w_c19.py observe every piece of state an edit can reach (public accessors + record bytes)",
            "pickle/deepcopy clones are used to compute expected states; each clone is itself compared with its source before use"]
 ASSUMPTIONS = ["equal snapshots <=> equal observable state (interning)",
